@@ -321,7 +321,7 @@ func c08microRun(seed uint64, variant int) []string {
 	z, x, y := pmtiles.IDToZxy(e.ID)
 	sr.start(0, uint64(z), uint64(x), uint64(y), 2) // warm
 	runAll()
-	sr.install(mk(2)) // the replacement completes here
+	sr.install(mk(2))                               // the replacement completes here
 	sr.start(0, uint64(z), uint64(x), uint64(y), 2) // Q: proceeds on the cached v1 header and directories to its tile read
 	pend := sr.gate.pendingList()
 	sr.armFreeze()
@@ -340,7 +340,80 @@ func c08microRun(seed uint64, variant int) []string {
 	return sr.viol
 }
 
+// c08metaRun: one metadata or TileJSON request, every placement of up to two replacements among its bucket calls, cold or warm
+// cache, with or without a replacement completed beforehand. Versions differ in metadata, zoom range and layout.   case: metasched ...
+func c08metaRun(seed uint64, kind string, warm, pre, p1, p2 int) []string {
+	sr := newSrvRun(64)
+	tag := 0
+	mk := func() *srvVersion {
+		tag++
+		v := genVersion(&rng{s: seed + uint64(tag)*7919}, len(sr.versions), 0, tag, false)
+		sr.versions = append(sr.versions, v)
+		return v
+	}
+	runAll := func() {
+		for g := 0; g < 40; g++ {
+			pend := sr.gate.pendingList()
+			if len(pend) == 0 {
+				break
+			}
+			sr.release(pend[0], "ok")
+		}
+	}
+	sr.install(mk())
+	if warm == 1 {
+		sr.startPath(0, kind)
+		runAll()
+	}
+	if pre == 1 {
+		sr.install(mk())
+	}
+	sr.startPath(0, kind)
+	for k := 0; k < 40; k++ {
+		for _, p := range []int{p1, p2} {
+			if p == k && p < 6 {
+				sr.install(mk())
+			}
+		}
+		pend := sr.gate.pendingList()
+		if len(pend) == 0 {
+			break
+		}
+		sr.release(pend[0], "ok")
+	}
+	sr.gate.releaseAll()
+	sr.checkResponses(false)
+	return sr.viol
+}
+
 func c08(r *rng, tier string, o *out) {
+	msets := 1
+	if tier == "thorough" {
+		msets = 10
+	}
+	for s := 0; s < msets; s++ {
+		seed := r.next() % 1000000
+		for _, kind := range []string{"meta", "json"} {
+			for warm := 0; warm < 2; warm++ {
+				for pre := 0; pre < 2; pre++ {
+					for p1 := 0; p1 <= 6; p1++ {
+						for p2 := p1; p2 <= 6; p2++ {
+							if p1 >= 4 && p1 < 6 || p2 >= 4 && p2 < 6 {
+								continue // a metadata request makes at most three bucket calls per attempt
+							}
+							line := fmt.Sprintf("metasched %d %s %d %d %d %d", seed, kind, warm, pre, p1, p2)
+							impl, viol := runCase("C08", line)
+							idx := o.emit(line, impl, true)
+							o.count("metadata_tilejson_schedule")
+							for _, v := range viol {
+								o.violation(idx, v)
+							}
+						}
+					}
+				}
+			}
+		}
+	}
 	nm := 12
 	if tier == "thorough" {
 		nm = 300
@@ -409,6 +482,20 @@ func c08(r *rng, tier string, o *out) {
 // srvReplay re-executes a recorded schedule (case line) against the real server.
 func srvReplay(line string) (string, []string) {
 	f := strings.Fields(line)
+	if f[0] == "metasched" {
+		var seed uint64
+		var warm, pre, p1, p2 int
+		fmt.Sscan(f[1], &seed)
+		fmt.Sscan(f[3], &warm)
+		fmt.Sscan(f[4], &pre)
+		fmt.Sscan(f[5], &p1)
+		fmt.Sscan(f[6], &p2)
+		viol := c08metaRun(seed, f[2], warm, pre, p1, p2)
+		if len(viol) > 0 {
+			return "violated", viol
+		}
+		return "ok", nil
+	}
 	if f[0] == "micro" {
 		var seed uint64
 		var variant int
